@@ -658,6 +658,11 @@ class Interp:
     def ev_Lambda(self, node, fr):
         return VFunc(node, fr.module, cls=fr.cls, closure=fr, qualname="<lambda>")
 
+    def ev_Yield(self, node, fr):
+        v = self.ev(node.value, fr) if node.value is not None else NONE
+        self.path.ghost.setdefault("events", {}).setdefault("yield", []).append(v)
+        return NONE
+
     def ev_Await(self, node, fr):
         v = self.ev(node.value, fr)
         return self.await_(v)
@@ -920,6 +925,8 @@ class Interp:
         node = fv.node
         is_async = isinstance(node, ast.AsyncFunctionDef)
         if is_async and any(isinstance(n, (ast.Yield,)) for n in ast.walk(node)):
+            if self.verifying is not None and self.verifying.split("#")[0] == fv.qualname and not self.in_callee:
+                return VCoro(lambda: self.call_func_now(fv, args, kwargs))       # body verification: yield = ghost event
             return self.B.async_generator(self, fv, args, kwargs)
         if is_async:
             # evaluation is delayed until awaited (argument binding errors included)
